@@ -294,6 +294,8 @@ class ExternMixin:
                  'h5py.File': lambda self, args, kw, node: self.ext_h5_file(args, kw, node),
                  'np.issubdtype': lambda self, args, kw, node: VB(self.ufunc('issubdtype_' + (args[1].t.name.replace('.', '_') if args[1].k == 'const' else 'x'), OPQ, BOOL)(self.as_opq(args[0]))),
                  'np.array': lambda self, args, kw, node: self.ext_np_array(args, kw, node),
+                 # X-NP10: np.asarray(a) of an array IS that array (no copy) - whatever is done to the result in place is done to `a`
+                 'np.asarray': lambda self, args, kw, node: args[0] if (args[0].k == 'opq' and not kw) else self.ext_np_array(args, kw, node),
                  'np.zeros': lambda self, args, kw, node: self.ext_np_zeros(args, kw, node),
                  'np.dtype': lambda self, args, kw, node: self.ext_np_dtype(args, kw, node)}
 
